@@ -19,8 +19,7 @@ META = {
                   "timeout was reported to the caller is over) is replayed over the log and every reception that returns is compared with "
                   "it: payload of a put that was issued on that queue, never delivered before, and exactly the put the model matched "
                   "(puts in issue order to gets in issue order); nothing may be written again into the result slot of a reception after the "
-                  "receiver consumed it (slots are scribbled and re-read at the end of the run), and a get that reported a timeout must not "
-                  "receive anything later; a run that ends with a get still blocked although a put was pending for it is a lost message. "
+                  "receiver consumed it (slots are scribbled and re-read at the end of the run); a run that ends with a get still blocked although a put was pending for it is a lost message. "
                   "Both the plain and the ASan+UBSan builds are driven.",
     "level_note": "S4U API, one schedule per program. While the known finding C09:payload-rewritten-after-delivery is open, scenarios in "
                   "which senders keep put handles use the body of MessageQueue::get<T>() with the result slot on the heap instead of "
